@@ -9,14 +9,14 @@ def build(tier):
     qs = []
     seed = int(os.environ.get("VERIF_SEED", "0") or 0)
     # ---- LDPC-Staircase: all 2^n received sets
-    cfgs = [(2, 3, 3, 1), (3, 3, 3, 1)] if tier == "quick" else ldpc_configs("thorough")
+    cfgs = [(2, 3, 3, 1), (3, 3, 3, 1)] if tier == "quick" else [(1, 3, 3, 1), (2, 3, 3, 1), (3, 3, 3, 1), (3, 4, 4, 1), (4, 3, 3, 1), (2, 4, 4, 2), (2, 5, 5, 12345), (4, 4, 3, 2), (5, 3, 3, 7)]
     for ci, cfg in enumerate(cfgs):
         k, r, n1, sd = cfg
         n = k + r
         for pi, pat in enumerate(all_patterns(n)):
             combos = [(0, 0), (0, 1), (1, 1)] if tier == "thorough" else ([(0, pi % 2), (1, 1)] if n <= 5 else [((pi + ci) % 2, 1)])
             for api, fin in combos:
-                variants = [pi % 5] if tier == "quick" else [0, 1, 3, 4]
+                variants = [pi % 5] if tier == "quick" else ([0, 1, 3, 4] if n <= 6 else [pi % 5])
                 for v in (variants if api == 0 else [0]):
                     ln = (1, 9, 13)[(pi + v) % (2 if tier == "quick" else 3)]
                     qs.append(ldpc_cycle("C01", cfg, pat, ln, api, fin, v, EN))
